@@ -11,6 +11,7 @@ import JanetModel.Parse.ReadAll
 import JanetModel.Parse.Insert
 import JanetModel.Parse.Latch
 import JanetModel.Parse.InsertPure
+import JanetModel.Parse.CapLemmas
 
 namespace JanetModel.Props.C11
 open JanetModel.Parse JanetModel.PP JanetModel.Gen.Parse
@@ -569,5 +570,36 @@ theorem status_produce_pure_with_insert (scan : List B → Option String) (ops :
 
 example : (([OpP.byte 40, .insert (.kw [97]) [97], .byte 35, .produce, .insert .nil [], .byte 10, .query, .byte 41, .insert (.bool true) [], .produce].foldl
     (runOpP (fun _ => none)) Run.init).events).length = 2 := by decide
+
+/-! ## capacities of the three parser stacks (`buf`/`bufcap`, `states`/`statecap`, `args`/`argcap`)
+
+`Parse/Cap.lean` is an executable overlay on the parser model: the capacities after every operation, following `DEF_PARSER_STACK`
+(growth test and factor regenerated: `Gen.stackGrowFactor`; the translator also pins the macro body, its three instances and the
+complete list of capacity assignments in parse.c), the one-jump growth of `parser/insert` into a string (`Gen.insertGrowFactor`),
+`janet_parser_clone` (capacity := count) and the temporary pushes of `parser/state :delimiters`.  The correspondence compares the
+real `bufcap` / `statecap` / `argcap` with it after every dump. -/
+
+/-- ★ one push (`push_buf` / `push_arg` / `_pushstate`) on a stack with `count ≤ cap`: the slot written, `STACK[oldcount]`, is inside
+    the (re)allocated block, the new count fits, the capacity does not shrink -/
+theorem stack_push_in_bounds (cap count : Nat) (h : count ≤ cap) :
+    count < growCap cap count ∧ count + 1 ≤ growCap cap count ∧ cap ≤ growCap cap count := growCap_ok cap count h
+
+/-- ★ `count ≤ capacity` for all three stacks in EVERY state reachable from `janet_parser_init` by any history of bytes (incl. on a
+    latched / dead parser), `eof`, `produce`, `parser/insert`, `flush`, `parser/error`, clone-and-continue and `parser/state` -/
+theorem capacity_invariant (scan : List B → Option String) (ops : List OpK) :
+    CapOK (ops.foldl (runOpK scan) ⟨Caps.init, Parser.init⟩).k (ops.foldl (runOpK scan) ⟨Caps.init, Parser.init⟩).p :=
+  runOpsK_ok scan ops ⟨Caps.init, Parser.init⟩ CapOK_init
+
+/-- `janet_parser_consume` from ANY state within capacity stays within capacity, and capacities only grow -/
+theorem consume_capacity (scan : List B → Option String) (k : Caps) (p : Parser) (c : B) (h : CapOK k p) :
+    CapOK (consumeK scan k p c) (consume scan p c) ∧ k.le (consumeK scan k p c) := consumeK_ok scan c h
+
+/-- `parser/state :delimiters` writes the delimiters BEHIND the scratch buffer's contents (indices `bufcount ..`), inside the grown
+    capacity, and restores the count: the parser value is unchanged (only `bufcap` and dead scratch bytes differ) -/
+theorem state_query_scratch_in_bounds (k : Caps) (p : Parser) (h : CapOK k p) :
+    CapOK (stateK k p) p ∧ p.buf.length + (delimiters p).length ≤ (stateK k p).buf ∧ k.le (stateK k p) := stateK_ok h
+
+example : ([OpK.byte 40, .byte 34, .byte 97, .state, .byte 98, .clone, .byte 99, .insert .nil [120, 121, 122], .eof].foldl
+    (runOpK (fun _ => none)) ⟨Caps.init, Parser.init⟩).k = ⟨6, 3, 0⟩ := by decide
 
 end JanetModel.Props.C11
